@@ -107,8 +107,12 @@ WORDS = ['a', 'b', 'foo', 'bar baz', 'x y', 'Hello', 'w', 'z1', 't.']
 # named 'text', groups 'BraceGroup', \[..\] 'displaymath'): a command of that
 # name must still be an ordinary command
 CMD_NAMES = ['x', 'foo', 'emph', 'textit', 'alpha', 'ref', 'cite', 'bar*',
-             'vspace*', 'y', 'text', 'BraceGroup', 'displaymath']
-ENV_NAMES = ['a', 'b', 'center', 'quote', 'tabular', 'document', 'figure*']
+             'vspace*', 'y', 'text', 'BraceGroup', 'displaymath',
+             # fragments of the names the reader dispatches on (item, begin,
+             # end): \it and \em are ordinary commands
+             'it', 'em', 'en', 'beg']
+# 'listings' / 'verbatimbox' merely START WITH a verbatim-like name
+ENV_NAMES = ['a', 'b', 'center', 'quote', 'tabular', 'document', 'figure*', 'listings', 'verbatimbox']
 LIST_ENV_NAMES = ['itemize', 'enumerate', 'description']
 MATH_ENV_NAMES = ['equation', 'align*', 'align', 'gather', 'math',
                   'displaymath', 'eqnarray*', 'multline', 'split']
